@@ -153,3 +153,32 @@ def fresh():
   gc._set_config_is_locked(False)
   del LOG[:]
   del SRC_CALLS[:]
+
+
+# ---- C10: REQUIRED probes ---------------------------------------------------
+DD = -104
+
+
+@gin.configurable(module='vw')
+def req(a, b=gin.REQUIRED, *, c=gin.REQUIRED, d=DD):
+  rec('req', a, b, c=c, d=d)
+  return (a, b, c, d)
+
+
+@gin.configurable(module='vw')
+def reqkw(a, **kw):
+  rec('reqkw', a, **kw)
+  return (a, kw)
+
+
+@gin.configurable(module='vw')
+class ReqK:
+
+  def __init__(self, a, b=gin.REQUIRED):
+    rec('ReqK', a, b)
+
+
+@gin.configurable(module='vw')
+def reqvar(a, *rest):
+  rec('reqvar', a, *rest)
+  return (a,) + tuple(rest)
